@@ -92,9 +92,10 @@ def parseDate (s : String) : Option DateHdr :=
   else s.toNat?.map .secs
 
 def parseMtime (s : String) : Option (Option (Nat × Nat)) :=
-  if s == "-" then some none
+  if s == "-" then some (usableMtime .absent)
+  else if s == "neg" then some (usableMtime .preEpoch)
   else match s.splitOn "." with
-    | [a, b] => do pure (some (← a.toNat?, ← b.toNat?))
+    | [a, b] => do pure (usableMtime (.at (← a.toNat?) (← b.toNat?)))
     | _ => none
 
 def parseMethod (s : String) : Option Method :=
@@ -314,9 +315,11 @@ def cmdSched (toks : List String) : Option String := do
 def cmdEtag (toks : List String) : Option String := do
   let ino ← (← kv toks "ino").toNat?
   let len ← (← kv toks "len").toNat?
-  let secs ← (← kv toks "secs").toNat?
+  let secsS ← kv toks "secs"
+  let neg := secsS.startsWith "-"
+  let secs ← (if neg then (secsS.drop 1).toString else secsS).toNat?
   let nanos ← (← kv toks "nanos").toNat?
-  pure (hexStr (fileEtag ino len secs nanos))
+  pure (hexStr (fileEtagS ino len neg secs nanos))
 
 def cmdFile (toks : List String) : Option String := do
   let a ← (← kv toks "start").toNat?
